@@ -27,7 +27,7 @@ import (
 //       under an absolute cap; clause: growth.
 
 const (
-	c01Budget       = 2_000_000    // statements per call for inputs of <= 16 tokens (need: < 10^4)
+	c01Budget       = 2_000_000     // statements per call for inputs of <= 16 tokens (need: < 10^4)
 	c01FamilyBudget = 2_000_000_000 // absolute cap for one call on a 10^4-token input
 )
 
